@@ -22,7 +22,7 @@ pub static DEF: PropDef = PropDef {
     real: &["ExecutionContext (set / get / clear / clone_with / borrow_with / take_with / new_with, guard Drop)", "Array / Map / TypedArray / TypedMap constructors", "Filter::execute / FilterValue::execute scheme binding", "context deserialisation"],
     stub: &["user functions and list matchers (harness plug-ins with fault points)", "byte source (FaultyReader)", "thread scheduler for the two-task phase"],
     assumptions: &["get_field_value / get_list_matcher with a foreign handle are documented-by-construction asserts and are not in the operation pool", "executing a filter that reads an unset mandatory field panics by design; probes run only when every mandatory field is set"],
-    required_probes: &["op.set_ok", "op.set_type_mismatch", "op.set_unknown", "op.set_twin", "op.exec_twin", "op.clear", "op.clone", "op.borrow", "op.take", "op.build_ok", "op.build_rejected", "op.deser", "unwind.guard", "unwind.clone", "unwind.clear", "unwind.closure", "probe.two_tasks"],
+    required_probes: &["op.set_ok", "op.set_type_mismatch", "op.set_unknown", "op.set_twin", "op.exec_twin", "op.clear", "op.clone", "op.borrow", "op.take", "op.build_ok", "op.build_rejected", "op.deser", "unwind.guard", "unwind.clone", "unwind.clear", "unwind.closure", "unwind.into_value", "probe.two_tasks"],
     extra: None,
 };
 
@@ -179,6 +179,15 @@ fn typed_wrappers() -> Result<(), Violation> {
     Ok(())
 }
 
+/// A value whose conversion into an `LhsValue` panics (S5: user code running inside a context operation).
+struct BoomValue;
+
+impl From<BoomValue> for LhsValue<'static> {
+    fn from(_: BoomValue) -> Self {
+        panic!("{}:into-lhs-value", seams::INJECTED)
+    }
+}
+
 #[derive(Default)]
 struct Tally {
     fails: u32,
@@ -253,8 +262,27 @@ fn apply_ops(w: &World, mut ctx: ExecutionContext<'static>, mut m: ModelCtx, n: 
                 }
                 check_ctx(w, &ctx, &m, "set")?;
             }
-            // ---- get
+            // ---- get (sometimes preceded by a set whose value conversion unwinds: nothing may change)
             2 => {
+                if chance(1, 4, "get.boom_set") {
+                    let fi = choose(nf, "boom.field");
+                    let name = &w.spec.fields[fi].0;
+                    let by_name = chance(1, 2, "boom.by_name");
+                    let r = catch_unwind(AssertUnwindSafe(|| {
+                        if by_name {
+                            ctx.set_field_value_from_name(name, BoomValue).map(|_| ())
+                        } else {
+                            ctx.set_field_value(w.scheme.get_field(name).unwrap(), BoomValue).map(|_| ())
+                        }
+                    }));
+                    kernel::count("unwind.into_value");
+                    tally.faults += 1;
+                    crate::tr!("  set {name} with a value whose Into<LhsValue> panics -> {}", if r.is_err() { "unwound" } else { "returned" });
+                    if r.is_ok() {
+                        return Err(v("closure-panic-swallowed", "into-lhs-value", "".to_string()));
+                    }
+                    check_ctx(w, &ctx, &m, "set-conversion-unwound")?;
+                }
                 let fi = choose(nf, "get.field");
                 let got = ctx.get_field_value(w.scheme.get_field(&w.spec.fields[fi].0).unwrap()).map(MValue::from_lhs);
                 if got != m.values[fi] {
